@@ -80,7 +80,9 @@ def _check_clause(clause: dict, clause_id: str) -> None:  # noqa: WPS231 too muc
 
 
 float_closeness_relative_tolerance: float = 1e-5
-float_closeness_absolute_tolerance: float = 1e-8
+# no absolute slack: with one, numbers below it were equal to zero and to each other - small coefficients were not printed,
+# pairs that are not opposite were folded, and "|LHS| = 0" (not in the grammar) was emitted for x <= 6e-9, -x <= 6e-9
+float_closeness_absolute_tolerance: float = 0.0
 
 
 def _number_to_string(n: numeric) -> str:
